@@ -114,7 +114,8 @@ class Run(object):
             self.fail('C36.3', 'a new foreign thread registered: %d thread states exist, expected %d '
                       '(%d Python threads + %d live foreign threads + %d base): thread states of exited threads '
                       'were %s' % (n, want, self.npy, live, self.base,
-                                   'leaked' if n > want else 'freed too early'))
+                                   'leaked' if n > want else 'freed too early (or states of threads that exited before the '
+                                   'baseline was taken were still there then and went away since: late reclamation)'))
         if any(f.exited for f in self.drv.fts.values()):
             self.out.probe('zombie_reclaimed_at_registration')
 
